@@ -219,6 +219,7 @@ theorem mem_valueEnds_lt {s r : List Char} (h : r ∈ valueEnds s) : r.length < 
     · simp at h
   · simp at h
 
+set_option linter.unusedVariables false in
 /-- `attribute*\s*/?>` followed by the continuation `k` (`k` = what the rest of the pattern accepts):
     the end of the FIRST match in priority order.  Greedy star: one more attribute first — with its
     optional value (all ends, in order), then without — and only then the closing `\s*/?>`. -/
